@@ -1,6 +1,7 @@
 package props
 
 import (
+	"fmt"
 	"go/token"
 	"go/types"
 	"strings"
@@ -28,65 +29,132 @@ func runC05Gaps2(c *eng.Ctx) {
 }
 
 // ---------- C05.7 the mount maximum CalculateTTL is handed
+//
+// The maximum MaxLeaseTTL reports is computed either in MaxLeaseTTL itself or
+// in the one function of the package whose result it hands on unchanged
+// (fetchTTLs today); the structural rules are evaluated where the computation
+// is. What is neither is reported as undecided.
 func c05MountMax(c *eng.Ctx) {
-	if f := c.Fn("vault.(dynamicSystemView).MaxLeaseTTL"); f != nil {
-		c.Clause("R5", "C05.7")
-		n := 0
-		for _, r := range eng.Returns(f) {
-			if r.Block().Comment == "recover" || len(r.Results) == 0 {
-				continue
-			}
-			n++
-			c.Prov(f, "mount maximum reported to CalculateTTL", r, r.Results[0], `^call:vault\.\(dynamicSystemView\)\.fetchTTLs#1$`)
-		}
-		c.Floor(f, "returns of MaxLeaseTTL", n, 1)
+	f := c.Fn("vault.(dynamicSystemView).MaxLeaseTTL")
+	if f == nil {
+		return
 	}
-	if f := c.Fn("vault.(dynamicSystemView).fetchTTLs"); f != nil {
-		c.Clause("R2", "C05.7")
-		isMountMax := func(v ssa.Value) bool { return strings.HasSuffix(eng.Expr(v), ".mountEntry.Config.MaxLeaseTTL") }
-		tuned := eng.PhiEdges(f, "max", isMountMax)
-		if c.Floor(f, "max = mountEntry.Config.MaxLeaseTTL", len(tuned), 1) {
-			c.CutEdges(f, "max = the mount's tuned maximum", tuned, eng.G(f, `\.mountEntry\.Config\.MaxLeaseTTL == 0$`, false))
+	c.Clause("R5", "C05.7")
+	var rets []*ssa.Return
+	for _, r := range eng.Returns(f) {
+		if r.Block().Comment != "recover" && len(r.Results) > 0 {
+			rets = append(rets, r)
 		}
-		// and conversely: a mount with a tuned (non-zero) maximum reports exactly that maximum
-		c.Clause("R5", "C05.7")
-		site := "a tuned mount maximum replaces the system maximum"
-		asm := map[string]bool{`\.mountEntry == nil$`: false, `\.mountEntry\.Config\.MaxLeaseTTL == 0$`: false}
-		fe := eng.Feasible(f, asm)
-		n, bad := 0, ""
-		for _, r := range eng.Returns(f) {
-			if r.Block().Comment == "recover" || len(r.Results) < 2 {
+	}
+	if !c.Floor(f, "returns of MaxLeaseTTL", len(rets), 1) {
+		return
+	}
+	// where is the value computed?
+	host, idx := f, 0
+	var helper *ssa.Function
+	helperIdx, nHelper, nOther := 0, 0, 0
+	for _, r := range rets {
+		for _, o := range eng.Origins(r.Results[0]) {
+			var cl *ssa.Call
+			k := 0
+			switch x := o.Val.(type) {
+			case *ssa.Extract:
+				cl, _ = x.Tuple.(*ssa.Call)
+				k = x.Index
+			case *ssa.Call:
+				cl = x
+			}
+			var g *ssa.Function
+			if cl != nil {
+				g = nfBody(cl, f)
+			}
+			if g == nil {
+				nOther++
 				continue
 			}
-			vals, _, _ := eng.ReturnVals(r, 1)
-			for _, v := range vals {
-				// leaves: field loads (not descended into) and whatever else the value is read out of
-				var leaves []ssa.Value
-				rest := eng.RootsVisit(v, fe, func(x ssa.Value) bool {
-					if ld, ok := x.(*ssa.UnOp); ok && ld.Op == token.MUL {
-						if _, isField := ld.X.(*ssa.FieldAddr); isField {
-							leaves = append(leaves, x)
-							return true
-						}
-					}
-					return false
-				})
-				for _, root := range append(leaves, rest...) {
-					n++
-					if !isMountMax(root) {
-						bad = eng.Expr(root)
-					}
+			if helper != nil && (helper != g || helperIdx != k) {
+				nOther++ // two different helpers: not followed
+				continue
+			}
+			helper, helperIdx = g, k
+			nHelper++
+		}
+	}
+	site := "prov{mount maximum reported to CalculateTTL}"
+	switch {
+	case nHelper > 0 && nOther == 0:
+		host, idx = helper, helperIdx
+		c.OK(f, site, rets[0].Pos(), fmt.Sprintf("MaxLeaseTTL hands on result %d of %s unchanged", idx, eng.FuncName(host)))
+	case nHelper == 0:
+		c.OK(f, site, rets[0].Pos(), "the maximum is computed in MaxLeaseTTL itself")
+	default:
+		c.Violation(f, site, rets[0].Pos(), "MaxLeaseTTL reports the result of "+eng.FuncName(helper)+" on some paths and something else on others: the mount maximum handed to CalculateTTL is not the one computed there", nil)
+		return
+	}
+	// the returns of the host that carry the maximum
+	type retVal struct {
+		r *ssa.Return
+		v ssa.Value
+	}
+	var maxes []retVal
+	for _, r := range eng.Returns(host) {
+		if r.Block().Comment == "recover" || len(r.Results) <= idx {
+			continue
+		}
+		vals, _, _ := eng.ReturnVals(r, idx)
+		for _, v := range vals {
+			maxes = append(maxes, retVal{r, v})
+		}
+	}
+	c.Clause("R2", "C05.7")
+	isMountMax := func(v ssa.Value) bool { return strings.HasSuffix(eng.Expr(v), ".mountEntry.Config.MaxLeaseTTL") }
+	// the variable the maximum is kept in: the phis the returned value is merged from
+	var tuned []eng.Edge
+	seenPhi := map[*ssa.Phi]bool{}
+	for _, m := range maxes {
+		for _, p := range c05PhisOf(m.v) {
+			if !seenPhi[p] {
+				seenPhi[p] = true
+				tuned = append(tuned, c05PhiInEdges(p, isMountMax)...)
+			}
+		}
+	}
+	if c.Floor(host, "max = mountEntry.Config.MaxLeaseTTL", len(tuned), 1) {
+		c.CutEdges(host, "max = the mount's tuned maximum", tuned, c18G(host, `\.mountEntry\.Config\.MaxLeaseTTL == 0$`, false))
+	}
+	// and conversely: a mount with a tuned (non-zero) maximum reports exactly that maximum
+	c.Clause("R5", "C05.7")
+	site = "a tuned mount maximum replaces the system maximum"
+	asm := map[string]bool{`\.mountEntry == nil$`: false, `\.mountEntry\.Config\.MaxLeaseTTL == 0$`: false}
+	fe := eng.Feasible(host, asm)
+	n, bad := 0, ""
+	for _, m := range maxes {
+		// leaves: field loads (not descended into) and whatever else the value is read out of
+		var leaves []ssa.Value
+		rest := eng.RootsVisit(m.v, fe, func(x ssa.Value) bool {
+			if ld, ok := x.(*ssa.UnOp); ok && ld.Op == token.MUL {
+				if _, isField := ld.X.(*ssa.FieldAddr); isField {
+					leaves = append(leaves, x)
+					return true
 				}
 			}
+			return false
+		})
+		for _, root := range append(leaves, rest...) {
+			n++
+			if !isMountMax(root) {
+				bad = eng.Expr(root)
+			}
 		}
-		switch {
-		case n == 0:
-			c.Undecided(f, site, f.Pos(), "no value found for the maximum returned by fetchTTLs")
-		case bad != "":
-			c.Violation(f, site, f.Pos(), "for a mount whose max_lease_ttl is tuned (non-zero) fetchTTLs may still report "+bad+": the mount maximum no longer bounds the mount's leases", nil)
-		default:
-			c.OK(f, site, f.Pos(), "with mountEntry != nil and Config.MaxLeaseTTL != 0 the maximum returned is Config.MaxLeaseTTL")
-		}
+	}
+	hn := eng.FuncName(host)
+	switch {
+	case n == 0:
+		c.Undecided(host, site, host.Pos(), "no value found for the maximum returned by "+hn)
+	case bad != "":
+		c.Violation(host, site, host.Pos(), "for a mount whose max_lease_ttl is tuned (non-zero) "+hn+" may still report "+bad+": the mount maximum no longer bounds the mount's leases", nil)
+	default:
+		c.OK(host, site, host.Pos(), "with mountEntry != nil and Config.MaxLeaseTTL != 0 the maximum returned is Config.MaxLeaseTTL")
 	}
 }
 
@@ -94,18 +162,18 @@ func c05MountMax(c *eng.Ctx) {
 func c05ExpiryHelpers(c *eng.Ctx) {
 	if f := c.Fn("logical.(*LeaseOptions).ExpirationTime"); f != nil {
 		c.Clause("R5", "C05.8")
-		adds := eng.Calls(f, `^time\.\(Time\)\.Add$`)
+		adds := c05Calls(f, `^time\.\(Time\)\.Add$`)
 		if c.Floor(f, "now.Add(total)", len(adds), 1) {
 			for _, a := range adds {
-				c.Prov(f, "expiry counted from now", a, a.Common().Args[0], `^call:time\.Now$`)
-				c.Prov(f, "expiry = now + LeaseTotal()", a, a.Common().Args[1], `^call:logical\.\(\*LeaseOptions\)\.LeaseTotal$`)
+				c05Prov(c, f, "expiry counted from now", a, c05Args(a)[0], `^call:time\.Now$`)
+				c05Prov(c, f, "expiry = now + LeaseTotal()", a, c05Args(a)[1], `^call:logical\.\(\*LeaseOptions\)\.LeaseTotal$`)
 			}
 		}
 		for _, r := range eng.Returns(f) {
 			if r.Block().Comment == "recover" || len(r.Results) == 0 {
 				continue
 			}
-			c.Prov(f, "expiry returned", r, r.Results[0], `^call:time\.\(Time\)\.Add$`, `^const:`)
+			c05Prov(c, f, "expiry returned", r, r.Results[0], `^call:time\.\(Time\)\.Add$`, `^const:`)
 		}
 	}
 	if f := c.Fn("logical.(*LeaseOptions).LeaseTotal"); f != nil {
@@ -116,7 +184,7 @@ func c05ExpiryHelpers(c *eng.Ctx) {
 				continue
 			}
 			n++
-			c.Prov(f, "lease total", r, r.Results[0], `^field:l\.TTL$`, `^const:0$`)
+			c05Prov(c, f, "lease total", r, r.Results[0], `^field:l\.TTL$`, `^const:0$`)
 		}
 		c.Floor(f, "returns of LeaseTotal", n, 1)
 	}
@@ -126,19 +194,19 @@ func c05ExpiryHelpers(c *eng.Ctx) {
 // call of f, every path to a sink first stores CalculateTTL's TTL through an
 // address matching storePat.
 func c05AppliedBefore(c *eng.Ctx, f *ssa.Function, storePat, storeDesc, sinkDesc string, sinks []ssa.Instruction) {
-	calcs := eng.Calls(f, `framework\.CalculateTTL$`)
+	calcs := c05Calls(f, `framework\.CalculateTTL$`)
 	if !c.Floor(f, "CalculateTTL call", len(calcs), 1) || !c.Floor(f, sinkDesc, len(sinks), 1) {
 		return
 	}
 	var applied []ssa.Instruction
 	for _, st := range eng.Stores(f, storePat) {
-		if ok, _, _ := eng.OriginsMatch(st.Val, `^call:framework\.CalculateTTL#0$`); ok {
+		if ok, _, _ := c18OriginsMatch(st.Val, nil, `^call:framework\.CalculateTTL#0$`); ok {
 			applied = append(applied, st)
 		}
 	}
 	site := "after{CalculateTTL} " + storeDesc + " before " + sinkDesc
 	for _, ct := range calcs {
-		ok := eng.CallOKEdges(ct)
+		ok := c05OKEdges(ct)
 		if len(ok) == 0 {
 			c.Undecided(f, site, ct.Pos(), "no nil-error edge found for the CalculateTTL call")
 			return
@@ -155,18 +223,18 @@ func c05AppliedBefore(c *eng.Ctx, f *ssa.Function, storePat, storeDesc, sinkDesc
 func c05IssueApplied(c *eng.Ctx) {
 	if f := c.Fn("vault.(*Core).handleRequest"); f != nil {
 		c.Clause("R3", "C05.9")
-		c05AppliedBefore(c, f, `\.Secret\.LeaseOptions\.TTL$`, "resp.Secret.TTL = ttl", "ExpirationManager.Register", instrsOf(eng.Calls(f, `vault\.\(\*ExpirationManager\)\.Register$`)))
+		c05AppliedBefore(c, f, `\.Secret\.LeaseOptions\.TTL$`, "resp.Secret.TTL = ttl", "ExpirationManager.Register", instrsOf(c05Calls(f, `vault\.\(\*ExpirationManager\)\.Register$`)))
 	}
 	if f := c.Fn("vault.(*TokenStore).handleCreateCommon"); f != nil {
 		c.Clause("R3", "C05.9")
-		c05AppliedBefore(c, f, `^&te\.TTL$`, "te.TTL = ttl", "TokenStore.create", instrsOf(eng.Calls(f, `vault\.\(\*TokenStore\)\.create$`)))
+		c05AppliedBefore(c, f, `^&te\.TTL$`, "te.TTL = ttl", "TokenStore.create", instrsOf(c05Calls(f, `vault\.\(\*TokenStore\)\.create$`)))
 	}
 	if f := c.Fn("vault.(*Core).LoginCreateToken"); f != nil {
 		c.Clause("R5", "C05.9")
-		regs := eng.Calls(f, `^vault\.\(\*Core\)\.RegisterAuth$`)
+		regs := c05Calls(f, `^vault\.\(\*Core\)\.RegisterAuth$`)
 		if c.Floor(f, "Core.RegisterAuth call", len(regs), 1) {
 			for _, r := range regs {
-				c.Prov(f, "TTL of the login token", r, r.Common().Args[2], `^call:framework\.CalculateTTL#0$`)
+				c05Prov(c, f, "TTL of the login token", r, c05Args(r)[2], `^call:framework\.CalculateTTL#0$`)
 			}
 		}
 	}
@@ -178,14 +246,14 @@ func c05IssueApplied(c *eng.Ctx) {
 	}
 	if f := c.Fn("vault.(*Core).RegisterAuth"); f != nil {
 		c.Clause("R5", "C05.9")
-		creates := eng.Calls(f, `vault\.\(\*TokenStore\)\.create$`)
-		regs := eng.Calls(f, `vault\.\(\*ExpirationManager\)\.RegisterAuth$`)
+		creates := c05Calls(f, `vault\.\(\*TokenStore\)\.create$`)
+		regs := c05Calls(f, `vault\.\(\*ExpirationManager\)\.RegisterAuth$`)
 		if c.Floor(f, "TokenStore.create call", len(creates), 1) && c.Floor(f, "ExpirationManager.RegisterAuth call", len(regs), 1) {
-			te := creates[0].Common().Args[2]
+			te := c05Args(creates[0])[2]
 			ttls := eng.StructLitField(te, "TTL")
 			if c.Floor(f, "TTL of the token entry literal", len(ttls), 1) {
 				for _, v := range ttls {
-					c.Prov(f, "token entry TTL", creates[0], v, `^param:tokenTTL$`)
+					c05Prov(c, f, "token entry TTL", creates[0], v, `^param:tokenTTL$`)
 				}
 			}
 			// the Auth the lease is registered with carries the entry's TTL
@@ -198,7 +266,7 @@ func c05IssueApplied(c *eng.Ctx) {
 			c.Clause("R3", "C05.9")
 			c.Before(f, "auth.TTL = te.TTL", sync, "ExpirationManager.RegisterAuth (lease of the login token)", instrsOf(regs))
 			for _, r := range regs {
-				a := r.Common().Args
+				a := c05Args(r)
 				if a[2] != te {
 					c.Violation(f, "lease registered for the entry created", r.Pos(), "ExpirationManager.RegisterAuth is handed "+eng.Expr(a[2])+", not the token entry given to TokenStore.create", nil)
 				}
@@ -221,8 +289,8 @@ func c05RoleMerge(c *eng.Ctx) {
 			continue
 		}
 		c.CutEdges(f, m.v+" = role."+m.fld, edges, eng.Or(
-			eng.G(f, `\.`+m.fld+` < φ`+m.v+`\{.*\}$`, true),
-			eng.G(f, `^φ`+m.v+`\{.*\} == 0$`, true)))
+			c18G(f, `\.`+m.fld+` < φ`+m.v+`\{.*\}$`, true),
+			c18G(f, `^φ`+m.v+`\{.*\} == 0$`, true)))
 	}
 }
 
@@ -233,7 +301,7 @@ func c05RestoreLegs(c *eng.Ctx) {
 		succ := eng.SuccessReturns(f, errIdx)
 		c.Clause("R4", "C05.11")
 		n := 0
-		for _, cl := range eng.Calls(f, `vault\.\(\*ExpirationManager\)\.collectNamespaceLeases$|vault\.\(\*Core\)\.ListNamespaces$`) {
+		for _, cl := range c05Calls(f, `vault\.\(\*ExpirationManager\)\.collectNamespaceLeases$|vault\.\(\*Core\)\.ListNamespaces$`) {
 			n++
 			site := "on{" + eng.CalleeName(cl.Common()) + " failed} the enumeration fails"
 			fe := eng.CallFailEdges(cl)
@@ -306,7 +374,7 @@ func c05RestoreLegs(c *eng.Ctx) {
 		c.Clause("R4", "C05.11")
 		var worker *ssa.Function
 		for _, cl := range eng.Closures(f) {
-			if len(eng.Calls(cl, `vault\.\(\*ExpirationManager\)\.processRestore$`)) > 0 {
+			if len(c05Calls(cl, `vault\.\(\*ExpirationManager\)\.processRestore$`)) > 0 {
 				worker = cl
 			}
 		}
@@ -331,7 +399,7 @@ func c05RestoreLegs(c *eng.Ctx) {
 				}
 				return false
 			}
-			for _, pr := range eng.Calls(worker, `vault\.\(\*ExpirationManager\)\.processRestore$`) {
+			for _, pr := range c05Calls(worker, `vault\.\(\*ExpirationManager\)\.processRestore$`) {
 				fe := eng.CallFailEdges(pr)
 				if len(fe) == 0 {
 					c.Violation(worker, site, pr.Pos(), "processRestore's error is not tested by the restore worker: a lease that cannot be loaded is counted as restored", nil)
@@ -349,17 +417,17 @@ func c05RestoreLegs(c *eng.Ctx) {
 	if f := c.Fn("vault.(*ExpirationManager).RestoreNamespace"); f != nil {
 		c.Clause("R3", "C05.11")
 		var enter []ssa.Instruction
-		for _, a := range eng.Calls(f, `^\(\*sync/atomic\.Int(32|64)\)\.Add$`) {
+		for _, a := range c05Calls(f, `^\(\*sync/atomic\.Int(32|64)\)\.Add$`) {
 			if _, isCall := a.(*ssa.Call); !isCall {
 				continue // deferred / go: runs after the restore
 			}
-			args := a.Common().Args
+			args := c05Args(a)
 			k, ok := args[len(args)-1].(*ssa.Const)
 			if ok && k.Value != nil && k.Int64() > 0 && strings.HasSuffix(eng.Expr(args[0]), ".restoreMode") {
 				enter = append(enter, a)
 			}
 		}
-		c.Before(f, "restoreMode.Add(k>0)", enter, "restore of the namespace's leases", instrsOf(eng.Calls(f, `vault\.\(\*ExpirationManager\)\.restore$`)))
+		c.Before(f, "restoreMode.Add(k>0)", enter, "restore of the namespace's leases", instrsOf(c05Calls(f, `vault\.\(\*ExpirationManager\)\.restore$`)))
 	}
 }
 
@@ -523,7 +591,7 @@ func c05LenOf(v ssa.Value) (ssa.Value, bool) {
 func c05RevocationHandOver(c *eng.Ctx) {
 	if f := c.Fn("vault.(*revocationJob).Execute"); f != nil {
 		c.Clause("R5", "C05.12")
-		revs := eng.Calls(f, `vault\.\(\*ExpirationManager\)\.Revoke$`)
+		revs := c05Calls(f, `vault\.\(\*ExpirationManager\)\.Revoke$`)
 		if c.Floor(f, "Revoke call", len(revs), 1) {
 			site := "the job reports Revoke's error (so that OnFailure runs)"
 			n := 0
@@ -538,7 +606,7 @@ func c05RevocationHandOver(c *eng.Ctx) {
 				}
 				for _, v := range vals {
 					n++
-					if ok, b, _ := eng.OriginsMatch(v, `^call:vault\.\(\*ExpirationManager\)\.Revoke$`); !ok {
+					if ok, b, _ := c18OriginsMatch(v, nil, `^call:vault\.\(\*ExpirationManager\)\.Revoke$`); !ok && !c05VerdictOf(v, revs) {
 						bad = b
 					}
 				}
@@ -556,8 +624,8 @@ func c05RevocationHandOver(c *eng.Ctx) {
 	if f := c.Fn("vault.(*ExpirationManager).markLeaseIrrevocable"); f != nil {
 		c.Clause("R4", "C05.12")
 		var filed []ssa.Instruction
-		for _, s := range eng.Calls(f, `^sync\.\(\*Map\)\.Store$`) {
-			if strings.HasSuffix(eng.Expr(s.Common().Args[0]), ".irrevocable") {
+		for _, s := range c05Calls(f, `^sync\.\(\*Map\)\.Store$`) {
+			if strings.HasSuffix(eng.Expr(c05Args(s)[0]), ".irrevocable") {
 				filed = append(filed, s)
 			}
 		}
@@ -574,7 +642,7 @@ func c05RevocationHandOver(c *eng.Ctx) {
 				c.OK(f, site, filed[0].Pos(), "every return past the nil / already-irrevocable refusals passes m.irrevocable.Store")
 			}
 			c.Clause("R3", "C05.12")
-			c.Before(f, "irrevocable.Store", filed, "removal from the pending set", instrsOf(eng.Calls(f, `vault\.\(\*ExpirationManager\)\.removeFromPending$`)))
+			c.Before(f, "irrevocable.Store", filed, "removal from the pending set", instrsOf(c05Calls(f, `vault\.\(\*ExpirationManager\)\.removeFromPending$`)))
 		}
 	}
 }
@@ -586,23 +654,23 @@ func c05Timer(c *eng.Ctx) {
 		return
 	}
 	c.Clause("R5", "C05.13")
-	arm := eng.Calls(f, `^time\.AfterFunc$`)
-	reset := eng.Calls(f, `^time\.\(\*Timer\)\.Reset$`)
+	arm := c05Calls(f, `^time\.AfterFunc$`)
+	reset := c05Calls(f, `^time\.\(\*Timer\)\.Reset$`)
 	if c.Floor(f, "time.AfterFunc", len(arm), 1) {
 		for _, a := range arm {
-			c.Prov(f, "duration of the expiry timer", a, a.Common().Args[0], `^call:time\.Until$`)
+			c05Prov(c, f, "duration of the expiry timer", a, c05Args(a)[0], `^call:time\.Until$`)
 		}
 	}
 	if c.Floor(f, "timer.Reset", len(reset), 1) {
 		for _, a := range reset {
-			args := a.Common().Args
-			c.Prov(f, "duration the expiry timer is reset to", a, args[len(args)-1], `^call:time\.Until$`)
+			args := c05Args(a)
+			c05Prov(c, f, "duration the expiry timer is reset to", a, args[len(args)-1], `^call:time\.Until$`)
 		}
 	}
-	until := eng.Calls(f, `^time\.Until$`)
+	until := c05Calls(f, `^time\.Until$`)
 	if c.Floor(f, "time.Until", len(until), 1) {
 		for _, u := range until {
-			c.Prov(f, "instant the timer runs until", u, u.Common().Args[0], `^field:le\.ExpireTime$`)
+			c05Prov(c, f, "instant the timer runs until", u, c05Args(u)[0], `^field:le\.ExpireTime$`)
 		}
 	}
 }
@@ -616,7 +684,7 @@ func c05RegisterRollback(c *eng.Ctx) {
 	c.Clause("R4", "C05.14")
 	var rb *ssa.Function
 	for _, cl := range eng.DeferredClosures(f) {
-		if len(eng.Calls(cl, `vault\.\(\*ExpirationManager\)\.deleteEntry$`)) > 0 {
+		if len(c05Calls(cl, `vault\.\(\*ExpirationManager\)\.deleteEntry$`)) > 0 {
 			rb = cl
 		}
 	}
@@ -624,7 +692,7 @@ func c05RegisterRollback(c *eng.Ctx) {
 		c.Violation(f, "rollback of a failed Register deletes the stored lease", f.Pos(), "Register has no deferred rollback calling deleteEntry: a failure after persistEntry leaves a stored lease that nothing tracks", nil)
 		return
 	}
-	c.CleanupOnEdges(rb, "Register is failing (retErr != nil)", eng.CondEdges(rb, `^\^retErr == nil$`, false), "deleteEntry of the lease just persisted", instrsOf(eng.Calls(rb, `vault\.\(\*ExpirationManager\)\.deleteEntry$`)))
+	c.CleanupOnEdges(rb, "Register is failing (retErr != nil)", eng.CondEdges(rb, `^\^retErr == nil$`, false), "deleteEntry of the lease just persisted", instrsOf(c05Calls(rb, `vault\.\(\*ExpirationManager\)\.deleteEntry$`)))
 	// the rollback is armed before the lease is persisted
 	c.Clause("R3", "C05.14")
 	var armed []ssa.Instruction
@@ -638,5 +706,88 @@ func c05RegisterRollback(c *eng.Ctx) {
 	}) {
 		armed = append(armed, in)
 	}
-	c.Before(f, "defer rollback", armed, "persistEntry", instrsOf(eng.Calls(f, `vault\.\(\*ExpirationManager\)\.persistEntry$`)))
+	c.Before(f, "defer rollback", armed, "persistEntry", instrsOf(c05Calls(f, `vault\.\(\*ExpirationManager\)\.persistEntry$`)))
+}
+
+// ---------------------------------------------------------------------------
+// Call sites of the C05 rules are located through the resolution helpers
+// shared with C18 (c18Calls, built on c04follow.go): a call is the same call
+// when it is written directly, made through a bound method value, or made by a
+// closure of the function / an unexported helper of the package on every path.
+
+// c05Sites remembers, for the instruction a site stands at, the site itself, so
+// that the rules can ask for the arguments of the call behind it.
+var c05Sites = map[ssa.Instruction]c18Site{}
+
+// c05Calls is eng.Calls over resolved sites: the instructions of f at which a
+// call whose resolved callee matches pat certainly happens (or is deferred /
+// spawned, as with eng.Calls).
+func c05Calls(f *ssa.Function, pat string) []ssa.CallInstruction {
+	var out []ssa.CallInstruction
+	for _, s := range c18Calls(f, pat) {
+		ci, ok := s.At.(ssa.CallInstruction)
+		if !ok {
+			continue
+		}
+		c05Sites[ci] = s
+		out = append(out, ci)
+	}
+	return out
+}
+
+// c05Args: the arguments (receiver first) of the call behind in — of in itself
+// (through a bound method value: with the bound receiver), or of the call a
+// forwarding closure / helper performs.
+func c05Args(in ssa.CallInstruction) []ssa.Value {
+	if s, ok := c05Sites[in]; ok && len(s.Effs) > 0 {
+		return s.Effs[0].Call.Args
+	}
+	return nfCallOf(in).Args
+}
+
+// c05Fr: the call chain the arguments of c05Args live in (nil: f itself).
+func c05Fr(in ssa.Instruction) *nfFrame {
+	if s, ok := c05Sites[in]; ok && len(s.Effs) > 0 {
+		return s.Effs[0].Fr
+	}
+	return nil
+}
+
+// c05OKEdges is eng.CallOKEdges for a resolved site: the nil-error edges of the
+// call when its error result is the verdict of the call behind it.
+func c05OKEdges(in ssa.CallInstruction) []eng.Edge {
+	if s, ok := c05Sites[in]; ok && !s.Fwd {
+		return nil
+	}
+	return eng.CallOKEdges(in)
+}
+
+// c05Prov is Ctx.Prov whose value may be an argument read inside a forwarding
+// closure / helper (followed back into the function through c05Fr(at)).
+func c05Prov(c *eng.Ctx, f *ssa.Function, site string, at ssa.Instruction, v ssa.Value, allowed ...string) bool {
+	return c18Prov(c, f, site, at, v, c05Fr(at), allowed...)
+}
+
+// c05VerdictOf: every origin of v is the (error) result of one of the resolved
+// sites whose result is the verdict of the call behind it.
+func c05VerdictOf(v ssa.Value, sites []ssa.CallInstruction) bool {
+	os := eng.Origins(v)
+	if len(os) == 0 {
+		return false
+	}
+	for _, o := range os {
+		ok := false
+		for _, s := range sites {
+			if st, rec := c05Sites[s]; rec && !st.Fwd {
+				continue
+			}
+			if sv, isVal := s.(ssa.Value); isVal && (o.Val == sv || o.Val == eng.ErrValue(s)) {
+				ok = true
+			}
+		}
+		if !ok {
+			return false
+		}
+	}
+	return true
 }
